@@ -107,6 +107,8 @@ type Obligation struct {
 	Res SolverResult
 	SMTFile string
 	WallS  float64
+	postSt *State
+	ClauseTerm string
 	Extra  []string // extra declarations/assertions local to this obligation (skolems)
 }
 
